@@ -94,6 +94,42 @@ func OmitRule(s *StructSpec, f *FieldSpec, v Val) Omit3 {
 type EncOpts struct {
 	// EitherOmit decides the ambiguous float cases (true = omit).
 	EitherOmit bool
+	// Mask, when non-nil, decides the i-th ambiguous case met (in encoding order) by
+	// bit i (1 = omit); Mask.N counts the decisions taken.
+	Mask *EitherMask
+}
+
+// EitherMask enumerates the outcomes of the ambiguous omission cases.
+type EitherMask struct {
+	Bits uint64
+	N    int
+}
+
+func (o EncOpts) omitEither() bool {
+	if o.Mask != nil {
+		i := o.Mask.N
+		o.Mask.N++
+		return i < 64 && o.Mask.Bits&(1<<uint(i)) != 0
+	}
+	return o.EitherOmit
+}
+
+// RefEncodeAll returns every reference encoding allowed for (s, v): one per outcome of
+// the ambiguous omission cases (at most 2^limit of them; nil if there are more).
+func RefEncodeAll(s *StructSpec, v *SVal, limit int) [][]byte {
+	m := &EitherMask{}
+	first := appendStructRef(nil, s, v, EncOpts{Mask: m})
+	if m.N == 0 {
+		return [][]byte{first}
+	}
+	if m.N > limit {
+		return nil
+	}
+	out := [][]byte{first}
+	for bits := uint64(1); bits < 1<<uint(m.N); bits++ {
+		out = append(out, appendStructRef(nil, s, v, EncOpts{Mask: &EitherMask{Bits: bits}}))
+	}
+	return out
 }
 
 // RefEncode is the reference Thrift Binary encoder for (spec, value).
@@ -113,7 +149,7 @@ func appendStructRef(out []byte, s *StructSpec, v *SVal, o EncOpts) []byte {
 		case Omit:
 			continue
 		case Either:
-			if o.EitherOmit {
+			if o.omitEither() {
 				continue
 			}
 		}
